@@ -35,7 +35,9 @@ subclass_of = z3.Function("subclass_of", I, I, B)       # class tag <= class tag
 str_contains = z3.Function("str_contains", I, I, B)     # needle sid in haystack sid
 str_of = z3.Function("str_of", Val, I)                  # str(x) as string id
 py_pow = z3.Function("py_pow", R, R, R)
-tb_of = z3.Function("tb_of", Val, Val)                  # traceback attached to an exception object
+tb_of = z3.Function("tb_of", Val, Val)
+# ownership of containers: 1 = created by library code (never aliased by user-visible containers), 0 = user's
+list_owner = z3.Function("list_owner", I, I)                  # traceback attached to an exception object
 
 
 def is_none(v):
